@@ -460,7 +460,7 @@ def shards(tier):
 def run_shard(spec, seed, tier):
     res = ShardResult()
     if spec["kind"] == "hyp":
-        n, ml, schemes = (40, 14, QUICK_SCHEMES) if tier == "quick" else (300, 30, S.SCHEMES)
+        n, ml, schemes = (40, 14, QUICK_SCHEMES) if tier == "quick" else (200, 30, S.SCHEMES)
         hyp.search(res, st_case(schemes, ml), body, seed, n)
         return res
     first = {}
